@@ -278,18 +278,17 @@ def eventsOf (fn : String) : List String := (Generated.regexFuncEvents.lookup fn
 
 def keyNames : List String := ["key:match", "key:start", "key:end", "key:groups", "key:next", "key:index"]
 
-/-- the engine call, the members of the objects, and who uses the checked extractor -/
+/-- the engine call, the members of the match objects, and that each of the four functions that accept a
+    user-written matcher checks what it returns (number offsets, an array of strings for the groups, an error
+    otherwise).  Stated over the exported entry points, whose traces are inlined through the package-local
+    helpers: the helpers' names do not occur, so renaming or regrouping them raises no alarm -/
 theorem fact_regex_functions :
-    (eventsOf "regexCallable.findMatches").contains "call:FindAllStringSubmatchIndex" = true ∧
+    (eventsOf "regexCallable.Call").contains "call:FindAllStringSubmatchIndex" = true ∧
     (eventsOf "matchCallable.Call").filter keyNames.contains = ["key:match", "key:start", "key:end", "key:groups", "key:next"] ∧
     (eventsOf "Match").filter keyNames.contains = ["key:match", "key:index", "key:groups"] ∧
-    (eventsOf "callReplaceFunc").filter keyNames.contains = ["key:match", "key:index", "key:groups"] ∧
-    (eventsOf "Match").contains "call:extractMatches" = true ∧
-    (eventsOf "Contains").contains "call:extractMatches" = true ∧
-    (eventsOf "Split").contains "call:extractMatches" = true ∧
-    (eventsOf "replaceMatchFunc").contains "call:extractMatches" = true ∧
-    (eventsOf "extractMatches").contains "call:Errorf" = true ∧
-    (eventsOf "expandReplaceString").contains "call:runesToNumbers" = true := by
+    (eventsOf "Replace").filter keyNames.contains = ["key:match", "key:index", "key:groups"] ∧
+    (["Match", "Contains", "Split", "Replace"].all fun f =>
+      (eventsOf f).contains "call:AsNumber" && (eventsOf f).contains "call:IsArrayOf" && (eventsOf f).contains "call:Errorf") = true := by
   decide
 
 /-- the flag letters the model's lexer accepts after a literal are i, m, s (tied to the implementation by the
